@@ -10,12 +10,16 @@
 (* (sref). The refresher is held back in these behaviours (the replay does   *)
 (* the same with the refresh timers): the routing table stays as loaded,     *)
 (* every command of a moved slot takes the way over the old owner.           *)
+(* HoldRefresh = TRUE (sequential client): the same for a table that is      *)
+(* stale from the start (StaleTableAtStart: the layout event carries the     *)
+(* table); with a migration on top one command needs MOVED and then ASK.     *)
 EXTENDS MC_Cluster, Json
-CONSTANTS Pipelined, MaxBurst   \* MaxBurst: commands the pipelining client keeps unanswered at most
+CONSTANTS Pipelined, MaxBurst,  \* MaxBurst: commands the pipelining client keeps unanswered at most
+          HoldRefresh          \* TRUE: the refresher is held back (the table stays as it was at start - stale if StaleTableAtStart)
 VARIABLES hist, finished, sref
 gvars == <<vars, hist, finished, sref>>
 GenInit == /\ Init /\ finished = FALSE /\ sref = [k \in Keys |-> Absent]
-           /\ hist = <<[a |-> "layout", owner |-> owner, k |-> "", op |-> "", exp |-> 0, p |-> 0, conn |-> hasConn]>>
+           /\ hist = <<[a |-> "layout", owner |-> owner, k |-> "", op |-> "", exp |-> 0, p |-> 0, conn |-> hasConn, table |-> table]>>
 AllAnswered == \A r \in R : reqs[r].st = "done"
 Finish ==
   /\ ~finished /\ Len(reqs) = MaxCmds /\ AllAnswered
@@ -31,7 +35,7 @@ GenNext ==
           /\ sref' = IF op = "write" THEN [sref EXCEPT ![k] = Len(reqs) + 1] ELSE sref
      \/ (\E n \in Nodes : NodeExec(n)) /\ UNCHANGED <<hist, sref>>
      \/ (\E r \in R : AskSecond(r)) /\ UNCHANGED <<hist, sref>>
-     \/ ~Pipelined /\ RefreshNext /\ UNCHANGED <<hist, sref>>
+     \/ ~Pipelined /\ ~HoldRefresh /\ RefreshNext /\ UNCHANGED <<hist, sref>>
      \/ \E s \in Slots, d \in Nodes : AllAnswered /\ SetMigrating(s, d) /\ Ev("setmigrating", s, "", d, 0) /\ UNCHANGED sref
      \/ \E k \in Keys : AllAnswered /\ MigrateKey(k) /\ Ev("migratekey", "", k, 0, 0) /\ UNCHANGED sref
      \/ \E s \in Slots : AllAnswered /\ Finalise(s) /\ Ev("finalise", s, "", 0, 0) /\ UNCHANGED sref
